@@ -25,5 +25,7 @@ P_ReadBack       == /\ R.read.ok
                     /\ R.read.types = [i \in 1..Len(pop) |-> pop[i].type]
                     /\ R.read.prec_ok
 \* the reader returns what the specification's reader returns for the tokens that are really in the file
+\* the path-based writer of the cell-data file (default arguments, cells as they are) yields a file that reads back identically
+P_PathWriter     == R.read.ok => R.read.path_same
 P_ReaderIsRead   == (F.parsed /\ R.read.ok) => R.read.cells = Read(F)
 =============================================================================
